@@ -31,13 +31,16 @@ class Clock(object):
         self.ticks += int(round(s * TICKS_PER_S))
 
 
-def _recording_stream():
+def _recording_stream(ansi=False):
     from clikit.io.output_stream import BufferedOutputStream
 
     class Recording(BufferedOutputStream):
         def __init__(self):
             super(Recording, self).__init__()
             self.chunks = []
+
+        def supports_ansi(self):
+            return ansi
 
         def write(self, string):
             n = len(self._buffer)
@@ -47,18 +50,24 @@ def _recording_stream():
     return Recording()
 
 
-def build(cfg, via):
+def build(cfg, via, how=None):
     """-> (stream, the object handed to ProgressBar).  via: output | io (an IO whose error output it is) | section
-    (plain mode only: a section of a plain output)"""
+    (plain mode only: a section of a plain output).  how: whether an output decorates is decided by stream AND
+    formatter - forced = non-ANSI stream + forced AnsiFormatter | stream = ANSI stream + AnsiFormatter (decorating);
+    plainfmt = non-ANSI stream + PlainFormatter | ttyplain = ANSI stream + PlainFormatter (plain)"""
     from clikit.api.io import Input, IO, Output
     from clikit.api.io import flags as F
     from clikit.formatter import AnsiFormatter, PlainFormatter
     from clikit.io.input_stream import StringInputStream
     from clikit.io.output_stream import BufferedOutputStream
 
-    stream = _recording_stream()
     mode = cfg["mode"]
-    fmt = PlainFormatter() if mode == "plain" else AnsiFormatter(forced=True)
+    how = how or ("plainfmt" if mode == "plain" else "forced")
+    stream = _recording_stream(how in ("stream", "ttyplain"))
+    if mode == "plain":
+        fmt = PlainFormatter()
+    else:
+        fmt = AnsiFormatter() if how == "stream" else AnsiFormatter(forced=True)
     out = Output(stream, fmt)
     verb = {"verbose": F.VERBOSE, "very_verbose": F.VERY_VERBOSE, "debug": F.DEBUG}.get(cfg["fmt"])
     if verb is not None:
@@ -77,7 +86,16 @@ def build(cfg, via):
     return stream, target
 
 
+_PATS = {}
+
+
 def frame_patterns(fmt):
+    if fmt not in _PATS:
+        _PATS[fmt] = _frame_patterns(fmt)
+    return _PATS[fmt]
+
+
+def _frame_patterns(fmt):
     """regular expressions for the frames of a format (named formats: with and without a maximum)"""
     from clikit.ui.components import ProgressBar
 
@@ -121,17 +139,34 @@ def project_frame(text, pats):
     return f
 
 
+DEFAULT_CHARS = {"bar": "", "empty": "-", "prog": [">"]}
+# messages as handed to set_message -> what a viewer sees of them (markup removed; non-ASCII letters are one cell)
+VISIBLE = {"<info>ok</info> go": "ok go", "<b>bold</b>": "bold"}
+
+
+def visible(msg):
+    return VISIBLE.get(msg, msg)
+
+
 def run_case(case):
+    """A case with a "pair" key runs two bars on two outputs with their calls interleaved under one clock and returns
+    the trace of case["which"]."""
     import clikit.ui.components.progress_bar as pbmod
 
-    cfg = case["cfg"]
+    base = case["pair"][0] if "pair" in case else case
     old_cols = os.environ.get("COLUMNS")
     old_time = pbmod.time
-    os.environ["COLUMNS"] = str(cfg["w"])
+    os.environ["COLUMNS"] = str(base["cfg"]["w"])
     clock = Clock()
     pbmod.time = clock
     try:
-        return _run_case(case, cfg, clock)
+        if "pair" in case:
+            return run_pair(case, clock)[case["which"]]
+        r = Runner(case, clock)
+        for op in case["ops"]:
+            clock.ticks += op.get("dt", 0)
+            r.step(op)
+        return r.trace
     finally:
         pbmod.time = old_time
         if old_cols is None:
@@ -140,36 +175,112 @@ def run_case(case):
             os.environ["COLUMNS"] = old_cols
 
 
-def _run_case(case, cfg, clock):
-    from clikit.ui.components import ProgressBar
+def run_pair(case, clock):
+    rs = [Runner(c, clock) for c in case["pair"]]
+    pos = [0, 0]
+    order = list(case["order"]) + [0] * len(case["pair"][0]["ops"]) + [1] * len(case["pair"][1]["ops"])
+    for who in order:
+        ops = case["pair"][who]["ops"]
+        if pos[who] < len(ops):
+            clock.ticks += ops[pos[who]].get("dt", 0)
+            rs[who].step(ops[pos[who]])
+            pos[who] += 1
+    return [rs[0].trace, rs[1].trace]
 
-    stream, target = build(cfg, case.get("via", "output"))
-    pats = frame_patterns(cfg["fmt"])
-    msg = case.get("msg0", "m")
-    ev = {"op": "new", "arg": cfg["max0"], "dt": 0, "frames": [], "ops": termbytes.ops(stream.fetch()), "exc": "",
-          "progress": 0, "maxsteps": cfg["max0"], "msg": list(msg), "cfg": cfg}
-    if cfg["mingap"] == 103:
-        bar = ProgressBar(target, cfg["max0"])  # the default: 0.1 s
-    else:
-        bar = ProgressBar(target, cfg["max0"], cfg["mingap"] / TICKS_PER_S)
-    if cfg["maxgap"] != 1024:
-        bar.max_seconds_between_redraws(cfg["maxgap"] / TICKS_PER_S)
-    bar.set_bar_width(cfg["bw"])
-    if cfg["fmt"] in CUSTOM:
-        bar.set_format(CUSTOM[cfg["fmt"]])
-        bar.set_message(msg)
-    trace = [ev]
-    for op in case["ops"]:
+
+class _Dead(object):
+    chunks = ()
+
+    def fetch(self):
+        return ""
+
+
+class Runner(object):
+    """one progress bar on one output; step() performs one call and appends the event with its observations.
+    The event's dt is the time since this bar's previous call (other bars may have been called in between)."""
+
+    def __init__(self, case, clock):
+        from clikit.ui.components import ProgressBar
+
+        self.case, self.clock = case, clock
+        cfg = self.cfg = case["cfg"]
+        self.conf = {"fmt": cfg["fmt"], "bw": cfg["bw"], "chars": cfg.get("chars", DEFAULT_CHARS)}
+        cfg.setdefault("chars", DEFAULT_CHARS)
+        cfg.setdefault("freq", 1)
+        self.msg = case.get("msg0", "m")
+        self.nops = 0
+        self.last = clock.ticks
+        ev = {"op": "new", "arg": cfg["max0"], "dt": 0, "frames": [], "ops": [], "exc": "", "progress": 0,
+              "maxsteps": max(0, cfg["max0"]), "msg": list(visible(self.msg)), "cfg": cfg, "conf": self.conf}
+        self.stream, self.bar = _Dead(), None
+        try:
+            self.stream, target = build(cfg, case.get("via", "output"), case.get("how"))
+            ev["ops"] = termbytes.ops(self.stream.fetch())
+            secs = None if cfg["mingap"] == 103 else cfg["mingap"] / TICKS_PER_S  # 103 ticks: the default 0.1 s
+            by_setter = case.get("mingap_by") == "setter" and cfg["mingap"] > 0
+            if case.get("ctor") == "kw":  # equivalent spellings of the constructor call
+                kw = {"max": cfg["max0"]}
+                if by_setter:
+                    kw["min_seconds_between_redraws"] = 0
+                elif secs is not None:
+                    kw["min_seconds_between_redraws"] = secs
+                bar = ProgressBar(target, **kw)
+            elif by_setter:
+                bar = ProgressBar(target, cfg["max0"], 0)
+            elif secs is None:
+                bar = ProgressBar(target, cfg["max0"])
+            else:
+                bar = ProgressBar(target, cfg["max0"], secs)
+            if cfg["freq"] != 1:
+                bar.set_redraw_frequency(cfg["freq"])
+            if by_setter:
+                bar.min_seconds_between_redraws(0.1 if secs is None else secs)
+            if cfg["maxgap"] != 1024:
+                bar.max_seconds_between_redraws(cfg["maxgap"] / TICKS_PER_S)
+            bar.set_bar_width(cfg["bw"])
+            self._set_chars(bar, cfg["chars"])
+            bar.set_message(self.msg)  # (a later set_format may bring the message into the frame)
+            if cfg["fmt"] in CUSTOM:
+                bar.set_format(CUSTOM[cfg["fmt"]])
+            self.bar = bar
+        except Exception as e:  # noqa: a failing constructor / setter is an observation too
+            ev["exc"] = type(e).__name__
+        self.trace = [ev]
+
+    @staticmethod
+    def _set_chars(bar, chars):
+        bar.set_bar_character(chars["bar"] or None)
+        bar.set_empty_bar_character(chars["empty"])
+        bar.set_progress_character("".join(chars["prog"]))
+
+    def step(self, op):
+        if self.bar is None:
+            return
+        bar, stream, cfg = self.bar, self.stream, self.cfg
         k = op["op"]
-        clock.ticks += op.get("dt", 0)
+        self.nops += 1
+        alt = self.nops % 2 == 0  # equivalent spellings of a call alternate
         mark, nchunks = len(stream.fetch()), len(stream.chunks)
-        ev = {"op": k, "arg": op.get("arg", 0), "dt": op.get("dt", 0), "frames": [], "ops": [], "exc": "",
-              "progress": 0, "maxsteps": 0, "msg": list(msg)}
+        timed = k not in ("msg", "fmt", "bw", "chars")  # setters do not look at the clock: their time counts for the next call
+        ev = {"op": k, "arg": op.get("arg", 0), "dt": (self.clock.ticks - self.last) if timed else 0, "frames": [],
+              "ops": [], "exc": "", "progress": 0, "maxsteps": 0, "msg": list(visible(self.msg)), "conf": self.conf}
+        if timed:
+            self.last = self.clock.ticks
         try:
             if k == "start":
-                bar.start() if op["arg"] < 0 else bar.start(op["arg"])
+                if op["arg"] < 0:
+                    bar.start()
+                elif alt:
+                    bar.start(max=op["arg"])
+                else:
+                    bar.start(op["arg"])
             elif k == "advance":
-                bar.advance(op["arg"])
+                if op["arg"] == 1 and alt:
+                    bar.advance()
+                elif alt:
+                    bar.advance(step=op["arg"])
+                else:
+                    bar.advance(op["arg"])
             elif k == "set":
                 bar.set_progress(op["arg"])
             elif k == "display":
@@ -179,15 +290,28 @@ def _run_case(case, cfg, clock):
             elif k == "finish":
                 bar.finish()
             elif k == "msg":
-                msg = op["text"]
-                bar.set_message(msg)
-                ev["msg"] = list(msg)
+                self.msg = op["text"]
+                bar.set_message(self.msg)
+                ev["msg"] = list(visible(self.msg))
+            elif k in ("fmt", "bw", "chars"):  # reconfiguration between draws
+                conf = dict(self.conf)
+                if k == "fmt":
+                    conf["fmt"] = op["fmt"]
+                    bar.set_format(CUSTOM.get(op["fmt"], op["fmt"]))
+                elif k == "bw":
+                    conf["bw"] = op["bw"]
+                    bar.set_bar_width(op["bw"])
+                else:
+                    conf["chars"] = op["chars"]
+                    self._set_chars(bar, op["chars"])
+                self.conf = ev["conf"] = conf
             else:
                 raise T.MachineryError("unknown op %r" % (k,))
         except T.MachineryError:
             raise
         except Exception as e:  # noqa: every exception kind is an observation
             ev["exc"] = type(e).__name__
+        pats = frame_patterns(self.conf["fmt"])
         ev["ops"] = termbytes.ops(stream.fetch()[mark:])
         for chunk in stream.chunks[nchunks:]:  # one write = one frame ...
             text = _ESC.sub("", chunk)
@@ -203,8 +327,7 @@ def _run_case(case, cfg, clock):
             ev["progress"], ev["maxsteps"] = int(bar.get_progress()), int(bar.get_max_steps())
         except Exception:  # noqa
             ev["progress"], ev["maxsteps"] = -99, -99
-        trace.append(ev)
-    return trace
+        self.trace.append(ev)
 
 
 def check_known(trace, cfg):
@@ -215,15 +338,25 @@ def check_known(trace, cfg):
                 raise T.MachineryError("the stream contains terminal codes the Terminal model does not know: %s" % bad[:5])
 
 
+def _conf(c):
+    return {"fmt": c["fmt"], "bw": c["bw"],
+            "chars": {"bar": c["chars"]["bar"], "empty": c["chars"]["empty"], "prog": list(c["chars"]["prog"])}}
+
+
 def case_of_behaviour(b):
+    """events[0] is the "new" event (it carries the configuration the bar is created with; `cfg` is printed as it is at
+    the end of the behaviour, after set_format / set_bar_width / character setters)"""
     ops = []
-    for e in b["events"]:
+    for e in b["events"][1:]:
         op = {"op": e["op"], "arg": e["arg"], "dt": e["dt"]}
         if e["op"] == "msg":
             op["text"] = "".join(e["msg"])
+        elif e["op"] in ("fmt", "bw", "chars"):
+            op.update(_conf(e["conf"]))
         ops.append(op)
     cfg = dict(b["cfg"])
     cfg["pre"] = [list(x) for x in cfg["pre"]]
+    cfg.update(_conf(b["events"][0]["conf"]))
     return {"cfg": cfg, "ops": ops, "msg0": "m"}
 
 
@@ -233,9 +366,9 @@ def _rtrim(cells):
 
 
 def same(b, trace):
-    if len(trace) != len(b["events"]) + 1:
+    if len(trace) != len(b["events"]):
         return False
-    for e, o in zip(b["events"], trace[1:]):
+    for e, o in zip(b["events"][1:], trace[1:]):
         if o["exc"] or o["progress"] != e["progress"] or o["maxsteps"] != e["maxsteps"] or len(o["frames"]) != len(e["frames"]):
             return False
         if o["ops"] != [dict(k=x["k"], n=x["n"], s=list(x["s"])) for x in e["ops"]]:
@@ -256,40 +389,61 @@ def nontrivial(case):
 
 
 # ------------------------------------------------------------------------------------------------ random cases
-MESSAGES = ["m", "", "hello", "a much longer message", "x y"]
+# messages with markup: only once the padding defect (notes, audit finding) is repaired - _overwrite pads the raw line
+MARKUP_MESSAGES = True
+MESSAGES = ["m", "", "hello", "a much longer message", "x y", u"gr\u00fc\u00df"] + (
+    ["<info>ok</info> go", "<b>bold</b>"] if MARKUP_MESSAGES else [])
+CHARSETS = [DEFAULT_CHARS, DEFAULT_CHARS, {"bar": "#", "empty": "~", "prog": []}, {"bar": "", "empty": ".", "prog": ["*"]},
+            {"bar": "o", "empty": "_", "prog": [">"]}]
+PLAIN_FAMILY = ["normal", "msg"]          # single-line formats the A-layer renders: exchanged for one another
+VERBOSE_FAMILY = ["verbose", "very_verbose", "debug"]
 
 
 def random_case(rng, maxlen=60):
     mode = rng.choice(["ansi", "ansi", "ansi", "plain", "plain", "section", "section", "quiet"])
     fmt = rng.choice(["normal", "normal", "normal", "msg", "msg", "two", "verbose", "very_verbose", "debug"])
-    max0 = rng.choice([0, 1, 3, 10, 50, 200])
+    max0 = rng.choice([0, 1, 3, 10, 50, 200, -1])
     cfg = {"mode": mode, "bw": rng.choice([1, 2, 4, 10, 28, 40, rng.randint(1, 40)]), "mingap": rng.choice([0, 0, 103, 103, 128, 512]),
-           "maxgap": rng.choice([1024, 1024, 1024, 2048]), "fmt": fmt, "w": 200,
+           "maxgap": rng.choice([1024, 1024, 1024, 2048]), "freq": rng.choice([1, 1, 2, 5]), "fmt": fmt,
+           "chars": rng.choice(CHARSETS), "w": 200,
            "pre": [] if fmt == "two" else [list(rng.choice(["##", "# #"])) for _ in range(rng.choice([0, 1, 1, 2]))], "max0": max0}
     case = {"cfg": cfg, "ops": [], "msg0": rng.choice(MESSAGES),
-            "via": rng.choice(["output", "output", "io"]) if mode != "plain" else rng.choice(["output", "output", "io", "section"])}
+            "via": rng.choice(["output", "output", "io"]) if mode != "plain" else rng.choice(["output", "output", "io", "section"]),
+            "how": rng.choice(["plainfmt", "ttyplain"] if mode == "plain" else ["forced", "stream"]),
+            "ctor": rng.choice(["pos", "kw"]), "mingap_by": rng.choice(["ctor", "setter"])}
     if mode in ("section", "quiet"):
         case["via"] = "output"
+    family = PLAIN_FAMILY if fmt in PLAIN_FAMILY else VERBOSE_FAMILY if fmt in VERBOSE_FAMILY else []
+    has_max = max0 > 0
     for _ in range(rng.randint(2, maxlen)):
         x = rng.random()
         dt = rng.choice([0, 0, 10, 51, 51, 205, 2048])
         if x < 0.1:
             m = rng.choice([-1, -1, 0, 1, 3, 10, 50, 200])
-            if fmt in ("very_verbose", "debug") and m == 0:
-                m = -1  # those formats refuse (RuntimeError, by design) to estimate without a maximum
+            if fmt in VERBOSE_FAMILY and m == 0:
+                m = -1  # very_verbose / debug refuse (RuntimeError, by design) to estimate without a maximum
             op = {"op": "start", "arg": m}
-        elif x < 0.55:
-            op = {"op": "advance", "arg": rng.choice([1, 1, 1, 2, 5, 7, 29, -1])}
-        elif x < 0.7:
+        elif x < 0.5:
+            op = {"op": "advance", "arg": rng.choice([1, 1, 1, 2, 5, 7, 29, -1, 0])}
+        elif x < 0.64:
             top = max(max0, 10)
-            op = {"op": "set", "arg": rng.choice([rng.randint(0, top), rng.randint(0, top), -1, top, top + 2, 58, 29])}
-        elif x < 0.78:
+            op = {"op": "set", "arg": rng.choice([rng.randint(0, top), rng.randint(0, top), -1, 0, top, top + 2, 58, 29])}
+        elif x < 0.71:
             op = {"op": "display", "arg": 0}
-        elif x < 0.86:
+        elif x < 0.78:
             op = {"op": "clear", "arg": 0}
-        elif x < 0.93 and fmt in CUSTOM:
+        elif x < 0.84 and fmt in CUSTOM:
             op = {"op": "msg", "arg": 0, "text": rng.choice(MESSAGES)}
             dt = 0
+        elif x < 0.9:  # reconfiguration between draws
+            y = rng.random()
+            dt = 0
+            if y < 0.35 and family:
+                op = {"op": "fmt", "arg": 0, "fmt": rng.choice(family)}
+            elif y < 0.7:
+                op = {"op": "bw", "arg": 0, "bw": rng.choice([1, 3, 4, 12, 28])}
+            else:
+                op = {"op": "chars", "arg": 0, "chars": rng.choice(CHARSETS)}
         else:
             op = {"op": "finish", "arg": 0}
         op["dt"] = dt
@@ -297,9 +451,18 @@ def random_case(rng, maxlen=60):
     return case
 
 
+def random_pair(rng):
+    """two bars alive at the same time on two different outputs, one clock"""
+    ca, cb = random_case(rng, 30), random_case(rng, 30)
+    cb["cfg"]["w"] = ca["cfg"]["w"]
+    n = len(ca["ops"]) + len(cb["ops"])
+    return {"pair": [ca, cb], "order": [rng.randint(0, 1) for _ in range(n)]}
+
+
 def sweep_case(mx, mode):
     """every step of a bar with maximum mx (test_percent / test_non_decorated_output lifted to all steps)"""
-    cfg = {"mode": mode, "bw": 28, "mingap": 0, "maxgap": 1024, "fmt": "normal", "w": 200, "pre": [list("##")], "max0": mx}
+    cfg = {"mode": mode, "bw": 28, "mingap": 0, "maxgap": 1024, "freq": 1, "fmt": "normal", "chars": DEFAULT_CHARS, "w": 200,
+           "pre": [list("##")], "max0": mx}
     ops = [{"op": "start", "arg": -1, "dt": 0}] + [{"op": "set", "arg": n, "dt": 1} for n in range(1, mx + 1)]
     return {"cfg": cfg, "ops": ops + [{"op": "finish", "arg": 0, "dt": 0}], "msg0": "m", "via": "output"}
 
@@ -351,6 +514,10 @@ def run(ctx):
             for op in case["ops"]:
                 opseen[op["op"]] = opseen.get(op["op"], 0) + 1
             case["via"] = "io" if len(seen) % 3 == 0 and case["cfg"]["mode"] in ("ansi", "plain") else "output"
+            hows = ("plainfmt", "ttyplain") if case["cfg"]["mode"] == "plain" else ("forced", "stream")
+            case["how"] = hows[(len(seen) // 3) % 2]
+            case["ctor"] = ("pos", "kw")[(len(seen) // 6) % 2]
+            case["mingap_by"] = ("ctor", "setter")[(len(seen) // 12) % 2]
             tr = run_case(case)
             check_known(tr, case["cfg"])
             ctx.count()
@@ -368,7 +535,7 @@ def run(ctx):
         r = ctx.model(SPEC, "MC_ProgressBar", cfg, name="behaviours (state cover) " + cfg, workers=8)
         opseen.clear()
         replay_emitted(r)
-        idle = [a for a in OPS + (["msg"] if "custom" in cfg else []) if not opseen.get(a)]
+        idle = [a for a in OPS + (["msg", "fmt", "bw", "chars"] if "custom" in cfg else []) if not opseen.get(a)]
         if idle:  # vacuity: every kind of call occurs in the behaviours that were replayed (-coverage is too slow here)
             raise T.MachineryError("calls never taken in the behaviours of %s: %s" % (cfg, idle))
     ncover = len(seen)
@@ -399,6 +566,16 @@ def run(ctx):
         if nontrivial(case):
             ctx.nontriv(("r", t))
     ctx.sample({"random_case": {k: (v[:10] if k == "ops" else v) for k, v in cases[-1].items()}})
+    for t in range(60 if quick else 600):  # two bars alive at the same time
+        pc = random_pair(ctx.rng)
+        for which in (0, 1):
+            c = dict(pc, which=which)
+            tr = run_case(c)
+            check_known(tr, pc["pair"][which]["cfg"])
+            traces.append(tr)
+            cases.append(c)
+            ctx.count()
+            ctx.nontriv(("p", t, which))
     ctx.validate(SPEC, "ProgressBarTrace", "ProgressBarTrace.cfg", traces, cases=cases, name="recorded-sequences")
 
 
@@ -410,5 +587,5 @@ def replay(ctx, path):
     ctx.nontriv(2)
     ctx.sample(c)
     tr = run_case(c)
-    check_known(tr, c["cfg"])
+    check_known(tr, (c["pair"][c["which"]] if "pair" in c else c)["cfg"])
     ctx.validate(SPEC, "ProgressBarTrace", "ProgressBarTrace.cfg", [tr], cases=[c], name="replay")
